@@ -153,16 +153,20 @@ def kani_harness(name, prefix):
         else:
             out.append("    assert!(v.%s == %s);" % (path, _expect(kind, off)))
     out.append("}\n")
-    # totality on every strict prefix (symbolic length): Err, never a panic
-    out.append("/// %s: every strict prefix (symbolic length 0..%d) is an error, never a panic" % (name, w - 1))
-    out.append("#[kani::proof]\nfn %s_prefix_%s() {" % (prefix, name))
+    # totality on every strict prefix: Err, never a panic.  The prefix length is concrete per loop iteration
+    # (a constant-trip-count loop, fully unwound with unwinding assertions on), because a *symbolic* slice
+    # length sends CBMC into a 10-minute timeout while a concrete one takes 2 s; all W lengths are covered.
+    out.append("/// %s: every strict prefix (each length 0..%d, all byte values) is an error, never a panic" % (name, w - 1))
+    out.append("#[kani::proof]\n#[kani::unwind(%d)]\nfn %s_prefix_%s() {" % (w + 1, prefix, name))
     out.append("    let bytes: [u8; %d] = kani::any();" % w)
-    out.append("    let n: usize = kani::any();")
-    out.append("    kani::assume(n < %d);" % w)
-    out.append("    kani::cover!(n == %d);" % (w - 1))
-    out.append("    let mut r: &[u8] = &bytes[..n];")
-    out.append("    let v: Result<%s, _> = %s;" % (s["path"], decode))
-    out.append("    assert!(v.is_err());")
+    out.append("    let mut n: usize = 0;")
+    out.append("    while n < %d {" % w)
+    out.append("        let mut r: &[u8] = &bytes[..n];")
+    out.append("        let v: Result<%s, _> = %s;" % (s["path"], decode))
+    out.append("        assert!(v.is_err());")
+    out.append("        core::mem::forget(v); // the error value's drop glue (Box<dyn Error> recursion) is not under test")
+    out.append("        n += 1;")
+    out.append("    }")
     out.append("}\n")
     return "\n".join(out)
 
